@@ -487,4 +487,146 @@ theorem noCont_mode (p : Sess) (hq : noCont p = true) : ∀ (env : Env) (s : St)
     simp only [exec]
     first | exact h | (split <;> simp_all)
 
+
+/-! ## programs that always leave normal mode, programs without loops -/
+
+def leaves : Sess → Bool
+  | .ret _ _ | .abort _ | .cont => true
+  | .seq a b => leaves a || leaves b
+  | .ite _ _ t e => leaves t && leaves e
+  | .scope _ b => leaves b
+  | _ => false
+
+theorem leaves_mode (p : Sess) (hq : leaves p = true) : ∀ (env : Env) (s : St), s.mode = .run → (exec p env s).mode ≠ .run := by
+  induction p with
+  | ret v l => intro env s h; simp [exec, h]
+  | abort l => intro env s h; simp [exec, h]
+  | cont => intro env s h; simp [exec, h]
+  | seq a b iha ihb =>
+    intro env s h
+    simp only [leaves, Bool.or_eq_true] at hq
+    simp only [exec]
+    by_cases hm : (exec a env s).mode = .run
+    · rcases hq with ha | hb
+      · exact absurd hm (iha ha env s h)
+      · exact ihb hb env _ hm
+    · rw [exec_nonrun _ _ _ hm]; exact hm
+  | ite c l t e iht ihe =>
+    intro env s h
+    simp only [leaves, Bool.and_eq_true] at hq
+    simp only [exec, h, if_true]
+    split
+    · exact iht hq.1 env s h
+    · exact ihe hq.2 env s h
+  | scope c b ih => intro env s h; simp only [exec]; exact ih hq env s h
+  | _ => simp [leaves] at hq
+
+def noLoop : Sess → Bool
+  | .loopN _ _ | .loopFuel _ => false
+  | .ite _ _ t e => noLoop t && noLoop e
+  | .seq a b => noLoop a && noLoop b
+  | .forEach b => noLoop b
+  | .defer c b => noLoop c && noLoop b
+  | .call _ _ b => noLoop b
+  | .scope _ b => noLoop b
+  | .when _ b => noLoop b
+  | _ => true
+
+theorem noLoop_mode (p : Sess) (hq : noLoop p = true) :
+    ∀ (env : Env) (s : St), s.mode ≠ .diverge → (exec p env s).mode ≠ .diverge := by
+  induction p with
+  | loopN n b _ => simp [noLoop] at hq
+  | loopFuel b _ => simp [noLoop] at hq
+  | ite c l t e iht ihe =>
+    intro env s h
+    simp only [noLoop, Bool.and_eq_true] at hq
+    simp only [exec]
+    split
+    · split
+      · exact iht hq.1 env s h
+      · exact ihe hq.2 env s h
+    · exact h
+  | seq a b iha ihb =>
+    intro env s h
+    simp only [noLoop, Bool.and_eq_true] at hq
+    simp only [exec]
+    exact ihb hq.2 env _ (iha hq.1 env s h)
+  | forEach b ih =>
+    intro env s h
+    simp only [exec]
+    split
+    · exact each_mode_ne _ _ (fun pk st hst => ih hq _ st hst) _ _ h
+    · exact h
+  | defer c b ihc ihb =>
+    intro env s h
+    simp only [noLoop, Bool.and_eq_true] at hq
+    simp only [exec]
+    split
+    · split
+      · rename_i hd; exact absurd hd (ihb hq.2 env s h)
+      · split
+        · exact ihb hq.2 env s h
+        · exact ihc hq.1 env _ (by simp)
+    · exact h
+  | call n l b ih =>
+    intro env s h
+    simp only [exec]
+    split
+    · split
+      · simp
+      · exact ih hq env s h
+    · exact h
+  | scope c b ih => intro env s h; simp only [exec]; exact ih hq env s h
+  | «when» c b ih =>
+    intro env s h
+    simp only [exec]
+    split
+    · split
+      · exact ih hq env s h
+      · exact h
+    · exact h
+  | recv ρ p =>
+    intro env s h
+    simp only [exec]
+    split
+    · rw [recvLoop_mode]; exact h
+    · exact h
+  | roundTrip ρ t r =>
+    intro env s h
+    simp only [exec]
+    split
+    · split
+      · rw [recvLoop_mode]; simp only []; rw [recvLoop_mode]; simpa using h
+      · rw [recvLoop_mode]; simpa using h
+    · exact h
+  | _ =>
+    intro env s h
+    simp only [exec]
+    first | exact h | (split <;> simp_all)
+
+/-- the state in which round `k` of a `for { … }` starts when all earlier rounds said `continue` -/
+def rounds (f : St → St) : Nat → St → St
+  | 0, s => s
+  | k+1, s => rounds f k { f s with mode := .run }
+
+/-- A `for { … }` whose body never falls through and never diverges ends (does not run out of
+fuel) as soon as some round within the fuel does not say `continue`. -/
+theorem iter_total (f : St → St)
+    (hf : ∀ s, s.mode = .run → (f s).mode ≠ .run ∧ (f s).mode ≠ .diverge) :
+    ∀ (n : Nat) (s : St), s.mode = .run → ∀ k, k < n → (f (rounds f k s)).mode ≠ .cont →
+      (iter n f s).mode ≠ .diverge := by
+  intro n
+  induction n with
+  | zero => intro s _ k hk; exact absurd hk (Nat.not_lt_zero k)
+  | succ n ih =>
+    intro s hs k hk hstop
+    simp only [iter, hs, if_true]
+    split
+    · rename_i hc
+      cases k with
+      | zero => exact absurd hc hstop
+      | succ k' => exact ih _ rfl k' (Nat.lt_of_succ_lt_succ hk) hstop
+    · rename_i hr; exact absurd hr (hf s hs).1
+    · exact (hf s hs).2
+
 end NA.C09
